@@ -35,7 +35,7 @@ NoScn == [sc |-> -1, cls |-> "", ops |-> <<>>]
 
 StatKeys == {"random", "sid", "suites", "sni", "nosni", "ext", "noext", "front",
              "ApplyPreset", "Build", "BuildNoSess", "SetClientRandom", "SetSNI", "RemoveSNI", "EditSuites", "EditSessionId",
-             "ExtInsert", "ExtRemove", "ExtALPN", "ExtSNIField", "InPlace", "inplace_found", "Break", "unbuildable", "refused", "build_failed", "build_err_unexplained", "sni_literal", "unprotected", "scn", "ch1", "ch2", "hrr", "hrr_cookie", "done", "done_hrr", "failed", "rebuilt", "seeded", "psk"}
+             "ExtInsert", "ExtRemove", "ExtALPN", "ExtSNIField", "InPlace", "inplace_found", "BBuild", "BPoke", "Break", "unbuildable", "refused", "build_failed", "build_err_unexplained", "sni_literal", "unprotected", "scn", "ch1", "ch2", "hrr", "hrr_cookie", "done", "done_hrr", "failed", "rebuilt", "seeded", "psk"}
 Bump(ks) == stats' = [k \in StatKeys |-> stats[k] + (IF k \in ks THEN 1 ELSE 0)]
 
 Init == /\ l = 1 /\ rej = {} /\ scn = NoScn /\ stats = [k \in StatKeys |-> 0] /\ atsend = NoSer /\ berr = ""
@@ -63,6 +63,8 @@ OnScn(ev) ==
 
 \* ---- Call: the public calls and edits
 NewSuites(before, o) == CASE o.kind = "append" -> Append(before, o.v)
+                          [] o.kind = "keep" -> before
+                          [] o.kind = "poke" -> IF Len(before) >= 2 THEN [before EXCEPT ![2] = o.v] ELSE before
                           [] o.kind = "droplast" -> IF before = <<>> THEN before ELSE SubSeq(before, 1, Len(before) - 1)
                           [] OTHER -> o.list
 Repl(x, b, b2) == IF x = b THEN b2 ELSE b
@@ -116,6 +118,7 @@ OnCall(ev) ==
                [] o.op = "ExtRemove"       -> ExtRemove(o.t) /\ Judge
                [] o.op = "InPlace"         -> (IF o.what = "sid" THEN (IF ev.found >= 1 THEN EditSessionId(ev.after) ELSE UNCHANGED bvars)
                                                ELSE InPlaceExt(o.id, InPlaceBody(o, ev), ev.found >= 1)) /\ Judge
+               [] o.op \in {"BBuild", "BPoke"} -> OtherConnection /\ Judge
                [] o.op = "Break"           -> Break(IF o.what = "shortrandom" THEN <<"random">> ELSE <<"break", o.what>>) /\ Judge
                [] o.op = "ExtALPN"         -> ExtALPN(Vec16(ProtoList(o.protos)), ev.found >= 1) /\ Judge
                [] OTHER -> Reject("binding", "unknown-op")
